@@ -15,6 +15,7 @@ import json
 import os
 import re
 
+import halting
 import symvm
 from common import (SPEC, WORK, ToolError, Verdict, harness, log, printed, read_json, run_tlc, tlc_must_pass, workdir)
 
@@ -95,6 +96,7 @@ def run(prop, tier, seed):
                        f"every envelope invariant, e.g. {extra[0]}")
         log(f"SPEC-DRIFT: the code deviates from the mirror (SymVMMC) on {mc['replay']['mismatching']} cases without "
             f"violating a property")
+    halt = halting.run(v, tier, seed) if prop == "C03" else None
     st = res["stats"]
     log(f"[{prop}] SymVMTrace: {res['records']} records, {len(res['viol'])} invariant failures ({len(mine)} for {prop})")
     cov = {
@@ -113,6 +115,11 @@ def run(prop, tier, seed):
                 "kinds, error programs of 9 kinds, gas programs) under limits L in 1..12, F in 1..60, G in 150..30M, both modes",
         "samples": [mc["sample"], {"violations": [symvm.classify(x) for x in res["viol"]][:5]}],
     }
+    if halt:
+        cov["whole_analysis_halting"] = halt
+        cov["states"] += halt["states"]
+        cov["rule"] += ("; whole analysis: one analyze() per (cyclic-type / cyclic-dataflow / control-flow / idiom program, random "
+                        "configuration) in a child process under a poll budget of 2M and a 90 s bound per case")
     return v.finish("model_checking", cov,
                     ["TLC + community modules", "hooks report what happened (cross-checked by the hook-free 'finish' "
                      "observation: stored states, max visit count, executed offsets)",
